@@ -5,6 +5,14 @@ HERE = os.path.dirname(os.path.abspath(__file__))
 ALL = ["C%02d" % i for i in range(1, 21)]
 
 CHECKS = {
+ "C16": dict(level="exploration", design="DESIGN.md 3/C16",
+   text="runtime black-box monitor on the real binary with RNACOS_ENABLE_OPEN_API_AUTH=true: the registered route table is discovered by observation, path spellings (case, slashes, dot segments, percent-encoding of prefix and inner segments, %2F, ;x=y, absolute form) that still reach a handler are kept, then every (route, method, spelling) x token carrier x token value {absent, empty, garbage, expired, other server's} must be answered 403 with the data fingerprint of the target unchanged, positive controls with a valid token must work; same for every gRPC data type (vh grpc-client) and the cluster-internal types with/without the cluster token",
+   note="route discovery is literal-based (a route whose path appears nowhere as a string literal would be missed); HTTP/2 and smuggling not tried",
+   technique="runtime black-box monitoring of the real server (enforcement sweep + state fingerprint + positive controls)"),
+ "C17": dict(level="exploration", design="DESIGN.md 3/C17",
+   text="function level: the repository's own UserRole::match_url_by_roles evaluated for every candidate (path, method) x every role sequence up to length 3 over {0,1,2,'',9,admin} (union, unknown-role, monotonicity checks); server level on the real binary's console port: route table discovered by observation, users for every role mix, session states {none, garbage, logged-out, expired, valid} x cookie/header, 45 effective mutating templates with admin positive controls and admin-read fingerprints before/after each role's block",
+   note="exhaustive for the function cube and registered route x method x session kinds as stated in the evidence; spellings sampled; routes refused to everybody can only be shown unreachable",
+   technique="exhaustive evaluation of the real permission function + runtime black-box monitoring of the real server with state fingerprints"),
  "C18": dict(level="exploration", design="DESIGN.md 3/C18",
    text="runtime monitor on the real binary's console port: data seeded in 4 namespaces with unique markers; restricted users for whitelist {all, none, A, AB, default} x blacklist {all, none, A, B} (+ disabled groups via transfer import) x roles; 65 endpoint operations of both console API versions x namespace spellings x paged walks; for a disallowed namespace the response must be a refusal, no marker may leak and the admin-read fingerprint must be unchanged; positive controls on allowed namespaces",
    note="endpoints without a working positive control are listed, not counted; subscriber listings and transfer import are not swept",
